@@ -69,12 +69,21 @@ pub struct Model {
     pub n: usize,
     /// family tag used for coverage accounting
     pub family: &'static str,
+    /// tolerance of an iterative solver inside the model (cross-association), 0 if none
+    pub solver_tol: f64,
 }
 
 fn m(name: &str, family: &'static str, tscale: f64, r: ResidualModel) -> Model {
     use feos_core::Components;
     let n = r.components();
+    let names: Vec<String> = {
+        use feos_core::Residual;
+        let st = feos_core::StateHD::new(300.0, 1000.0, ndarray::Array1::from_elem(n, 1.0 / n as f64));
+        r.residual_helmholtz_energy_contributions(&st).into_iter().map(|(s, _)| s).collect()
+    };
+    let solver_tol = if names.iter().any(|s| s.contains("ssociation")) { 1e-10 } else { 0.0 };
     Model {
+        solver_tol,
         name: name.to_owned(),
         eos: Arc::new(r),
         tscale,
